@@ -33,6 +33,10 @@ From Coq Require Import List NArith Bool.
 Import ListNotations.
 Open Scope N_scope.
 
+(* the model lives in an inner module so that its (generic) names — run, step, trace, state, Commit ... —
+   stay qualified in the monolithic OCaml extraction (Model.ExecM.run) and cannot clash with other models *)
+Module ExecM.
+
 Inductive discipline := SpawnPerEntry | FifoWorker.
 
 Inductive event :=
@@ -141,3 +145,5 @@ Definition action_of (lg : log) (i : N) : N :=
 
 Definition db_state {S : Type} (apply : S -> N -> S) (s0 : S) (lg : log) (tr : list N) : S :=
   fold_left (fun st i => apply st (action_of lg i)) tr s0.
+
+End ExecM.
